@@ -95,13 +95,14 @@ type PkgContracts struct {
 	Lemmas []*Lemma
 	LemmaByName map[string]*Lemma
 	Assumptions []string // mechanical scan: trusted / axiom entries
+	GlobalInvs  []*Clause
 }
 
 var ckeywords = map[string]bool{
 	"spec": true, "func": true, "lemma": true, "axiom": true, "prop": true, "mode": true, "requires": true,
 	"ensures": true, "modifies": true, "nopanic": true, "nooverflow": true, "pure": true,
 	"trusted": true, "inline": true, "loop": true, "use": true, "split": true, "tier": true,
-	"induct": true, "ih": true, "allocbound": true, "abstract": true, "ghost": true, "uninterp": true, "where": true, "import": true,
+	"induct": true, "ih": true, "allocbound": true, "abstract": true, "ghost": true, "uninterp": true, "where": true, "import": true, "globalinv": true,
 }
 
 func parseParams(s string) ([]Param, error) {
@@ -300,6 +301,14 @@ func loadContracts(path string) (*PkgContracts, error) {
 			}
 			pc.Lemmas = append(pc.Lemmas, curL)
 			pc.LemmaByName[curL.Name] = curL
+		case "globalinv":
+			// package-level invariant over effectively-final globals: proved on init, assumed elsewhere
+			curF, curL = nil, nil
+			c, err := mkClause(l, rest)
+			if err != nil {
+				return nil, err
+			}
+			pc.GlobalInvs = append(pc.GlobalInvs, c)
 		default:
 			if curF == nil && curL == nil {
 				return nil, fail(l, "clause %q outside func/lemma", kw)
